@@ -6,7 +6,7 @@ MARK = "<!-- GENERATED TAIL (lib/mkdesign_tail.py) -->"
 def thorough_list():
     out = []
     try:
-        for l in open(V + "/work/thorough.log"):
+        for l in open(V + "/lib/thorough.log"):
             m = re.match(r"(C\d+) thorough rc=0 wall=(\d+)s .*evaluations=(\d+)", l)
             if m:
                 out.append("%s (%s evaluations, %s s)" % (m.group(1), m.group(3), m.group(2)))
